@@ -32,6 +32,7 @@ claimed["C20"] = ("model_checking","vsched-dbdfs",cluster_text+" Scenarios: snap
 timed_text = ("Exhaustive exploration in a timed regime: virtual clock, timers fire strictly in deadline order; the explorer chooses the instant of the fault among all quiescent "
   "instants with a stable leader (one execution per instant) and the timeout jitter; the bound on virtual time is checked on every execution.")
 timed_note = "3-5 servers; HeartbeatTimeout=ElectionTimeout=LeaderLeaseTimeout=100ms; message delivery and thread steps take no virtual time; per-server jitter fixed and distinct (deviation: near maximum)."
+claimed["C12"] = ("model_checking","vsched-dbdfs",cluster_text+" When the script of a fault scenario ends, the faults stop (partitions healed, crashed servers restarted, no further deviations) and the run continues in the timed regime; on every execution the cluster must elect, accept a write and catch every running member up within 10 election timeouts of virtual time, without re-sending the same snapshot three times.",cluster_note+" Quiet phase: zero message latency, pairwise distinct timeout jitter (two permutations).",tech_cluster+" (fault phase) followed by a deterministic timed continuation")
 claimed["C13"] = ("model_checking","vsched-dbdfs",timed_text,timed_note,tech_cluster+" (timed regime)")
 claimed["C14"] = ("model_checking","vsched-dbdfs",timed_text,timed_note,tech_cluster+" (timed regime)")
 claimed["C15"] = ("fault_enumeration","crashfs","Crash-image enumeration on the real FileSnapshotStore: os is replaced by an in-memory file system that logs every operation; for every prefix of the log and every combination of surviving un-synced effects the image is opened by a fresh store and checked (List/Open/bytes/order/retain/durability), plus corrupted state and metadata files.","Durability model stated in the evidence assumptions (fsync(file) persists data + own entry, fsync(dir) persists earlier entry operations, per-directory/per-file ordering, atomic rename); histories of <=2 (3 thorough) snapshots.","exhaustive crash-point x surviving-effects enumeration (fault enumeration) on the implementation")
